@@ -57,7 +57,7 @@ def opRun : Op := fun j => do
       match register cls dig r s (← fStr c "ep") (← getKw (← field c "kw")) with
       | .ok r' => r := r'; out := out.push (jStr "ok")
       | .error (.parse e) => out := out.push (jObj [("error", jErr e)])
-      | .error (.alreadyRegistered _) => out := out.push (jObj [("error", jStr "already_registered")])
+      | .error (.alreadyRegistered i) => out := out.push (jObj [("error", jStr "already_registered"), ("id", jCodes i)])
       | .error (.unregistered ..) => out := out.push (jObj [("error", jStr "unregistered")])
     | "make" =>
       let s ← getList getAC (← field c "chars")
@@ -66,7 +66,8 @@ def opRun : Op := fun j => do
         out := out.push (jObj [("ep", jStr ep), ("kw", jList (fun (p : String × String) => Json.arr #[jStr p.1, jStr p.2]) kw)])
       | .error (.parse e) => out := out.push (jObj [("error", jErr e)])
       | .error (.alreadyRegistered _) => out := out.push (jObj [("error", jStr "already_registered")])
-      | .error (.unregistered _ regs) => out := out.push (jObj [("error", jStr "unregistered"), ("registered", jList jCodes regs)])
+      | .error (.unregistered i regs) =>
+        out := out.push (jObj [("error", jStr "unregistered"), ("id", jCodes i), ("registered", jList jCodes regs)])
     | "registered" => out := out.push (jList jCodes (registered r))
     | f => throw s!"unknown call {f}"
   pure (.arr out)
